@@ -128,7 +128,18 @@ def gen_scenario(seed, i, tier):
         else:
             ops.append(["act", "next", "p1", {"open": rng.below(5)}, {}])
         ops.append(["runall", policy, rng.below(1 << 30)])
-    return {"id": f"c16-{seed}-{i}", "config": {"keep": True, "dump_each": True}, "models": [w], "ops": ops, "hooks": g.hooks, "policy": policy}
+    cfg = {"keep": True, "dump_each": True}
+    if i % 6 == 2:
+        # the process is reloaded while groups are open: dropped from the cache (in-memory store) or the engine restarted (SQLite); the
+        # nodes a generator built at run time come back with their links
+        cfg["store"] = "sqlite" if rng.chance(1, 2) else "mem"
+        out = []
+        for op in ops:
+            out.append(op)
+            if op[0] == "runall" and len(out) > 3 and rng.chance(1, 3):
+                out.append(["restart"] if (cfg["store"] == "sqlite" and rng.chance(1, 2)) else ["evict", "p1"])
+        ops = out
+    return {"id": f"c16-{seed}-{i}", "config": cfg, "models": [w], "ops": ops, "hooks": g.hooks, "policy": policy}
 
 
 def analyse(sc, res):
